@@ -402,3 +402,78 @@ Proof.
   destruct (1000 * rduration (r_segs ref) ÷ r_mediats ref * r_mediats ref =? 1000 * rduration (r_segs ref)) eqn:Em;
     [exfalso; lia|reflexivity].
 Qed.
+
+(** * $Number$ contiguity without the no-wrap bound
+
+    When the uint32 number wraps (files startNr .. 2^32-1, 0, 1, ...), the loop ends with
+    endNr < startNr and loadRep reports "no segments read" - unless the file numbered 0 is missing,
+    in which case the table is the (contiguous) one built before the wrap. *)
+
+Lemma number_loop_wrapped thumb : forall files startNr endNr nr dsd acc segs d e,
+  0 <= nr -> nr + lenZ files <= startNr -> startNr < two32 ->
+  number_loop thumb files startNr endNr nr dsd acc = Ok (segs, d, e) ->
+  e < startNr \/ (nr = 0 /\ segs = acc).
+Proof.
+  induction files as [|f files IH]; intros startNr endNr nr dsd acc segs d e H0 Hlen Hs H.
+  - cbn in H. inversion H; subst. rewrite lenZ_nil in Hlen. destruct (Z.eq_dec nr 0) as [->|Hne]; [right; auto|left].
+    rewrite c15_u32_small by (unfold two32 in *; lia). lia.
+  - rewrite lenZ_cons in Hlen. pose proof (lenZ_nonneg files) as Hl.
+    cbn [number_loop] in H. destruct f as [| | |o]; try discriminate.
+    + inversion H; subst. destruct (Z.eq_dec nr 0) as [->|Hne]; [right; auto|left].
+      rewrite c15_u32_small by (unfold two32 in *; lia). lia.
+    + set (p := match thumb with None => read_mp4 dsd o nr | Some dur => (read_thumb nr startNr dur, dsd) end) in H.
+      destruct p as [sg dsd1].
+      destruct (nr >? startNr) eqn:E; [lia|]. cbn [bind] in H.
+      destruct (nr =? endNr) eqn:En; [inversion H; subst; left; lia|].
+      rewrite c15_u32_small in H by (unfold two32 in *; lia).
+      destruct (IH startNr endNr (nr + 1) dsd1 (acc ++ [sg]) segs d e ltac:(lia) ltac:(lia) Hs H) as [Hlt|[Hz _]]; [left; exact Hlt|lia].
+Qed.
+
+Lemma number_loop_contig_wrap thumb : forall files startNr endNr nr dsd acc segs dsd' endNr',
+  0 <= startNr -> startNr <= nr < two32 -> (nr - startNr) + lenZ files < two32 ->
+  (acc = [] <-> nr = startNr) ->
+  ccontig acc ->
+  number_loop thumb files startNr endNr nr dsd acc = Ok (segs, dsd', endNr') ->
+  ccontig segs \/ endNr' < startNr.
+Proof.
+  induction files as [|f files IH]; intros startNr endNr nr dsd acc segs dsd' endNr' H0 Hnr Hlen Hacc Hc H.
+  - cbn in H. inversion H; subst. left; exact Hc.
+  - rewrite lenZ_cons in Hlen. pose proof (lenZ_nonneg files) as Hl.
+    cbn [number_loop] in H. destruct f as [| | |o]; [inversion H; subst; left; exact Hc|discriminate|discriminate|].
+    set (p := match thumb with None => read_mp4 dsd o nr | Some dur => (read_thumb nr startNr dur, dsd) end) in H.
+    destruct p as [sg dsd1].
+    assert (Hacc1 : exists acc1,
+       (if nr >? startNr then match set_last_end acc (c_st sg) with Some a => Ok a | None => Panic "loadRep: index out of range [-1]" end else Ok acc) = Ok acc1
+       /\ ccontig (acc1 ++ [sg])).
+    { destruct (nr >? startNr) eqn:E.
+      - assert (Hne : acc <> []) by (intros Hx; apply Hacc in Hx; lia).
+        destruct (set_last_end_some acc (c_st sg) Hne) as [a Ha]. rewrite Ha. exists a. split; [reflexivity|].
+        eapply ccontig_fix_append; eauto.
+      - assert (acc = []) as -> by (apply Hacc; lia). exists []. split; [reflexivity|]. exact I. }
+    destruct Hacc1 as [acc1 [E1 Hc1]]. rewrite E1 in H. cbn [bind] in H.
+    destruct (nr =? endNr); [inversion H; subst; left; exact Hc1|].
+    destruct (Z.eq_dec (nr + 1) two32) as [Hw|Hnw].
+    + (* the number wraps to 0 *)
+      assert (Hu : u32 (nr + 1) = 0) by (unfold u32; rewrite Hw; apply Z.mod_same; unfold two32; lia).
+      rewrite Hu in H.
+      destruct (number_loop_wrapped thumb files startNr endNr 0 dsd1 (acc1 ++ [sg]) segs dsd' endNr' ltac:(lia) ltac:(lia) ltac:(lia) H)
+        as [Hlt|[_ ->]]; [right; exact Hlt|left; exact Hc1].
+    + assert (Hu : u32 (nr + 1) = nr + 1) by (apply c15_u32_small; unfold two32 in *; lia).
+      rewrite Hu in H. eapply IH; try exact H; try lia; [|exact Hc1].
+      split; [intros Hx; destruct acc1; discriminate|lia].
+Qed.
+
+(** $Number$ tables are contiguous for every file list (fewer than 2^32 files), every start and end number. *)
+Lemma load_number_contig_all thumb files sn en dsd segs dsd' :
+  0 <= match sn with Some n => n | None => 1 end < two32 ->
+  lenZ files < two32 ->
+  load_number thumb files sn en dsd = Ok (segs, dsd') -> ccontig segs.
+Proof.
+  intros H0 Hlen H. unfold load_number in H.
+  set (startNr := match sn with Some n => n | None => 1 end) in *.
+  destruct (number_loop thumb files startNr (match en with Some n => n | None => u32 (startNr - 1) end) startNr dsd []) as [[[s d] e]| |] eqn:E;
+    cbn [bind] in H; try discriminate.
+  destruct (e <? startNr) eqn:El; [discriminate|]. inversion H; subst.
+  destruct (number_loop_contig_wrap thumb files startNr _ startNr dsd [] segs dsd' e ltac:(lia) ltac:(lia) ltac:(lia) ltac:(tauto) I E) as [Hc|Hlt];
+    [exact Hc|lia].
+Qed.
